@@ -13,7 +13,7 @@ Notation node := N.
 Notation edge := (N * N)%type.
 
 (* ------------------------------------------------------------------------- control *)
-Inductive exn := ValueError | KeyError | TypeError | RuntimeError.
+Inductive exn := ValueError | KeyError | TypeError | RuntimeError | IndexError.
 Inductive ctl (R : Type) := CNormal | CContinue | CReturn (r : R) | CRaise (e : exn).
 Arguments CNormal {R}. Arguments CContinue {R}. Arguments CReturn {R} r. Arguments CRaise {R} e.
 (* what a call yields: a value, an exception, or falling off the end (Python: None) *)
@@ -46,6 +46,8 @@ Fixpoint py_loop {A} (body : A -> stmt S R) (l : list A) (s : S) : ctl R * S :=
   end.
 Definition py_for {A} (it : S -> list A) (body : A -> stmt S R) : stmt S R :=
   fun s => py_loop body (it s) s.
+Definition py_outcome (c : ctl R) : result R :=
+  match c with CNormal | CContinue => RetNone | CReturn r => Ret r | CRaise e => Exc e end.
 Definition py_run (b : stmt S R) (s : S) : result R :=
   match fst (b s) with CNormal | CContinue => RetNone | CReturn r => Ret r | CRaise e => Exc e end.
 
@@ -238,7 +240,7 @@ Definition py_in_degree (G : pygraph) (v : node) : Z := py_len (py_in_edges G v)
 
 (* ------------------------------------------------------------------------- result printing (correspondence runs) *)
 Definition exn_code (e : exn) : Z :=
-  match e with ValueError => 0 | KeyError => 1 | TypeError => 2 | RuntimeError => 3 end%Z.
+  match e with ValueError => 0 | KeyError => 1 | TypeError => 2 | RuntimeError => 3 | IndexError => 4 end%Z.
 Definition enc_Q (q : Q) : list Z := let r := Qred q in [Qnum r; Zpos (Qden r)].
 Definition enc_result {R} (enc : R -> list Z) (r : result R) : list Z :=
   match r with Ret v => 0%Z :: enc v | Exc e => [1%Z; exn_code e] | RetNone => [2%Z] end.
